@@ -33,7 +33,9 @@ def strategy(tier):
     rendered = st.fixed_dictionaries({"kind": st.just("program"), "prog": prog, "spell": _tape, "layout": st.one_of(st.none(), _tape), "cut": st.one_of(st.none(), st.integers(0, 2000))})
     uni = st.fixed_dictionaries({"kind": st.just("text"), "text": st.text(max_size=80)})
     heavy = st.fixed_dictionaries({"kind": st.just("text"), "text": st.lists(st.sampled_from(ALPHA), max_size=40).map("".join)})
-    return st.one_of(rendered, uni, heavy, heavy)
+    from vf.core import weighted
+
+    return weighted((1, rendered), (1, uni), (2, heavy))
 
 
 def pygments_normalise(text: str) -> str:
